@@ -203,6 +203,16 @@ func refReadings(base proto.Message, fds []protoreflect.FieldDescriptor, text st
 			out = append(out, m2)
 		}
 	}
+	// The reference is protojson itself, including what its tokenizer lets
+	// through although encoding/json would not (e.g. "2e " read as 2): a bare
+	// text without structural characters is also tried verbatim in value
+	// position.
+	if fd.Kind() != protoreflect.StringKind && text != "" && !strings.ContainsAny(text, ",{}[]:\"\\") {
+		m3 := cloneMsg(base)
+		if err := applyRawJSON(m3.ProtoReflect(), fds, text); err == nil {
+			out = append(out, m3)
+		}
+	}
 	return out
 }
 
@@ -392,6 +402,23 @@ func numFields(md protoreflect.MessageDescriptor) int { return md.Fields().Len()
 func (g *gen) multi(p *plan) (*Case, error) {
 	d := math.Min(0.5, (2+6*g.rng.Float64())/float64(numFields(p.in)))
 	M := genMessage(g.rng, p.in, genOpts{density: d, bodyOnly: p.rule.Body != "", depth: 3})
+	if p.rule.Body != "" && g.rng.Intn(60) == 0 {
+		// a large body (well below the 4 MiB receive limit)
+		target := M.ProtoReflect()
+		if p.body != nil {
+			for _, fd := range p.body {
+				target = target.Mutable(fd).Message()
+			}
+		}
+		fs := target.Descriptor().Fields()
+		for i := 0; i < fs.Len(); i++ {
+			fd := fs.Get(i)
+			if fd.Kind() == protoreflect.StringKind && !fd.IsList() && fd.ContainingOneof() == nil && !p.isPathVar(p.bodyPrefix()+string(fd.Name())) {
+				target.Set(fd, protoreflect.ValueOfString(strings.Repeat("large body é ", 20000)))
+				break
+			}
+		}
+	}
 	return g.finish(p, M, -1, func(enc bodyEnc) string {
 		if p.rule.Body == "" {
 			return "multi:query"
@@ -703,20 +730,14 @@ func RunC03(r *mon.Run) {
 			for _, via := range vias {
 				hs := hostileTexts(lf.fd())
 				// random single/double character mutations of canonical texts
-				if !lf.fd().IsList() || true {
-					for k := 0; k < nMut; k++ {
-						tmp := vschema.NewMsg(lf.fd().ContainingMessage()).ProtoReflect()
-						setLeaf(tmp, lf.fd(), -1, g.rng)
-						ts, err := canonTexts(tmp, lf.fd(), g.rng.Intn(3) == 0)
-						if err != nil || len(ts) == 0 {
-							continue
-						}
-						t := ts[0]
-						if len(t) > 64 {
-							continue
-						}
-						hs = append(hs, hostile{mutate(g.rng, t), "mutated"})
+				for k := 0; k < nMut; k++ {
+					tmp := vschema.NewMsg(lf.fd().ContainingMessage()).ProtoReflect()
+					setLeaf(tmp, lf.fd(), -1, g.rng)
+					ts, err := canonTexts(tmp, lf.fd(), g.rng.Intn(3) == 0)
+					if err != nil || len(ts) == 0 || len(ts[0]) > 64 {
+						continue
 					}
+					hs = append(hs, hostile{mutate(g.rng, ts[0]), "mutated"})
 				}
 				for _, h := range hs {
 					run(g.neg(p, lf, via, h))
@@ -754,7 +775,7 @@ func apply(r *mon.Run, c *Case, o outcome) bool {
 	if o.distinct != "" {
 		r.Distinct(o.distinct)
 		sampleClock++
-		if sampleClock%1499 == 1 {
+		if sampleClock%1499 == 1 && len(c.Req.Body)+len(c.Msg)+len(c.Reply)+len(c.Req.RawQuery) < 1500 {
 			r.Sample(c)
 		}
 	}
